@@ -19,13 +19,13 @@ theorem shaped_withMarks {t : Ty} {p : Payload} (h : shaped t p = true) (L : Lis
     simpa using hne
 
 /-- what the mark prologue returns: the operation's result, possibly re-marked -/
-theorem binMarks_result (f : Value → Value → Res Value) (a k r' : Value) (hk : k.isMarked = false)
+theorem binMarks_result (f : Value → Value → Res Value) (a k r' : Value)
     (h : binMarks f a k = .ok r') :
-    ∃ r, f a.unmark k = .ok r ∧ (r' = r ∨ ∃ L, r' = r.withMarks L) := by
+    ∃ r, f a.unmark k.unmark = .ok r ∧ (r' = r ∨ ∃ L, r' = r.withMarks L) := by
   simp only [binMarks] at h
-  by_cases ha : a.isMarked = true
-  · simp only [ha, Bool.true_or, if_true, unmark_of_not_marked k hk] at h
-    cases hf : f a.unmark k with
+  by_cases hm : (a.isMarked || k.isMarked) = true
+  · simp only [hm, if_true] at h
+    cases hf : f a.unmark k.unmark with
     | ok r =>
       rw [hf] at h
       simp only [Res.map, Res.ok.injEq] at h
@@ -33,9 +33,9 @@ theorem binMarks_result (f : Value → Value → Res Value) (a k r' : Value) (hk
     | err c => rw [hf] at h; cases h
     | panic w => rw [hf] at h; cases h
     | unmodelled => rw [hf] at h; cases h
-  · have ha' : a.isMarked = false := by simpa using ha
-    simp only [ha', hk, Bool.or_self, Bool.false_eq_true, if_false] at h
-    rw [unmark_of_not_marked a ha']
+  · simp only [hm, Bool.false_eq_true, if_false] at h
+    simp only [Bool.or_eq_true, not_or, Bool.not_eq_true] at hm
+    rw [unmark_of_not_marked a hm.1, unmark_of_not_marked k hm.2]
     exact ⟨r', h, Or.inl rfl⟩
 
 theorem getAttr_result (a r' : Value) (n : String) (h : Value.getAttr a n = .ok r') :
@@ -156,24 +156,6 @@ theorem getElem?_mem_shaped {e : Ty} {vs : List Payload} {i : Nat} {p : Payload}
     (hs : shapedAll e vs = true) (h : vs[i]? = some p) : shaped e p = true :=
   shapedAll_mem hs p (List.mem_of_getElem? h)
 
-theorem plainKey_num {k : Value} (hk : plainKey k = true) (ht : k.ty = .number) :
-    ∃ x, k = ⟨.number, .n x⟩ := by
-  obtain ⟨kt, kp⟩ := k
-  simp only at ht
-  subst ht
-  simp only [plainKey, Bool.and_eq_true] at hk
-  cases kp <;> simp at hk
-  exact ⟨_, rfl⟩
-
-theorem plainKey_str {k : Value} (hk : plainKey k = true) (ht : k.ty = .string) :
-    ∃ x, k = ⟨.string, .s x⟩ := by
-  obtain ⟨kt, kp⟩ := k
-  simp only at ht
-  subst ht
-  simp only [plainKey, Bool.and_eq_true] at hk
-  cases kp <;> simp at hk
-  exact ⟨_, rfl⟩
-
 theorem indexU_list_shaped (e : Ty) (raw : Payload) (x : Num) (r : Value)
     (hs : shaped (.list e) raw = true) (hm : raw.isMarked = false) (hw : Ty.wf e = true)
     (h : indexU ⟨.list e, raw⟩ ⟨.number, .n x⟩ = .ok r) : shapedV r = true ∧ Ty.wf r.ty = true := by
@@ -271,44 +253,49 @@ theorem unmark_shaped_parts {v : Value} (hs : shapedV v = true) :
     shaped v.ty v.unmark.v = true ∧ v.unmark.v.isMarked = false ∧ v.unmark = ⟨v.ty, v.unmark.v⟩ :=
   ⟨shaped_unmark1 hs, shaped_unmark1_notMarked hs, rfl⟩
 
-/-- the tail of `IndexStep.Apply` once the kind checks are passed -/
-theorem index_tail_shaped (v k v' : Value) (_hs : shapedV v = true) (hkm : k.isMarked = false)
-    (helem : ∀ e, PathStep.elementType v.ty = .ok e → Ty.wf e = true)
-    (hidx : ∀ r, indexU v.unmark k = .ok r → shapedV r = true ∧ Ty.wf r.ty = true)
-    (h : (match v.hasIndex k with
-      | .ok has =>
-        let has := has.unmark
-        if !has.isKnown then (PathStep.elementType v.ty).map Value.unknown
-        else if !has.isTrue then .err "value does not have given index key"
-        else v.index k
-      | .err c => .err c
-      | .panic w => .panic w
-      | .unmodelled => .unmodelled) = .ok v') :
-    shapedV v' = true ∧ Ty.wf v'.ty = true := by
-  cases hh : v.hasIndex k with
-  | ok has =>
-    simp only [hh] at h
-    split at h
-    · cases he : PathStep.elementType v.ty with
-      | ok e =>
-        simp only [he, Res.map, Res.ok.injEq] at h
-        subst h
-        exact ⟨unknown_shaped e, helem e he⟩
-      | err c => simp [he, Res.map] at h
-      | panic w => simp [he, Res.map] at h
-      | unmodelled => simp [he, Res.map] at h
-    · split at h
-      · cases h
-      · obtain ⟨r, hr, hrel⟩ := binMarks_result indexU v k v' hkm h
-        have := hidx r hr
-        exact remarked_shaped hrel this.1 this.2
-  | err c => simp [hh] at h
-  | panic w => simp [hh] at h
-  | unmodelled => simp [hh] at h
+theorem indexU_unkkey_shaped (t : Ty) (raw : Payload) (kt : Ty) (rf : Rfn) (r : Value)
+    (hw : Ty.wf t = true) (h : indexU ⟨t, raw⟩ ⟨kt, .unk rf⟩ = .ok r) :
+    shapedV r = true ∧ Ty.wf r.ty = true := by
+  cases t <;> cases kt <;>
+    simp [indexU, Ty.isDyn, Ty.isNumber, Ty.isString, Value.isKnown, Payload.isKnown,
+      Payload.unmark1] at h <;>
+    first
+    | (subst h; exact ⟨rfl, rfl⟩)
+    | (subst h; exact ⟨unknown_shaped _, by simpa [Ty.wf, Value.unknown] using hw⟩)
+
+/-- what `Index` returns for a shaped unmarked key is shaped -/
+theorem indexU_key_shaped (v : Value) (kt : Ty) (kp : Payload) (r : Value) (hs : shapedV v = true)
+    (hw : Ty.wf v.ty = true) (hks : shaped kt kp = true) (hkm : kp.isMarked = false)
+    (hkn : (⟨kt, kp⟩ : Value).isNull = false)
+    (hty : (kt = .number ∧ PathStep.isListOrTuple v.ty = true) ∨ (kt = .string ∧ PathStep.isMap v.ty = true))
+    (h : indexU v.unmark ⟨kt, kp⟩ = .ok r) : shapedV r = true ∧ Ty.wf r.ty = true := by
+  have hp := unmark_shaped_parts hs
+  rw [hp.2.2] at h
+  obtain ⟨t, p⟩ := v
+  rcases hty with ⟨rfl, ht⟩ | ⟨rfl, ht⟩
+  · cases kp <;> first
+      | (simp [Payload.isMarked] at hkm; done)
+      | (exfalso; exact Bool.noConfusion (show false = true from hks))
+      | (exfalso; exact Bool.noConfusion (show true = false from hkn))
+      | skip
+    · exact indexU_unkkey_shaped _ _ _ _ r hw h
+    · rename_i x
+      cases t <;> simp [PathStep.isListOrTuple] at ht
+      · exact indexU_list_shaped _ _ x r hp.1 hp.2.1 (by simpa [Ty.wf] using hw) h
+      · exact indexU_tuple_shaped _ _ x r hp.1 hp.2.1 (by simpa [Ty.wf] using hw) h
+  · cases kp <;> first
+      | (simp [Payload.isMarked] at hkm; done)
+      | (exfalso; exact Bool.noConfusion (show false = true from hks))
+      | (exfalso; exact Bool.noConfusion (show true = false from hkn))
+      | skip
+    · exact indexU_unkkey_shaped _ _ _ _ r hw h
+    · rename_i x
+      cases t <;> simp [PathStep.isMap] at ht
+      exact indexU_map_shaped _ _ x r hp.1 hp.2.1 (by simpa [Ty.wf] using hw) h
 
 /-- **a successful step returns a shaped value of a well-formed type** -/
 theorem step_shaped (s : PathStep) (v v' : Value) (hs : shapedV v = true) (hw : Ty.wf v.ty = true)
-    (hk : (match s with | .index k => plainKey k | .getAttr _ => true) = true)
+    (hk : (match s with | .index k => shapedV k | .getAttr _ => true) = true)
     (h : s.apply v = .ok v') : shapedV v' = true ∧ Ty.wf v'.ty = true := by
   have hp := unmark_shaped_parts hs
   cases s with
@@ -325,47 +312,65 @@ theorem step_shaped (s : PathStep) (v v' : Value) (hs : shapedV v = true) (hw : 
           exact remarked_shaped hrel this.1 this.2
       · cases h
   | index k =>
+    have hfit : (k.ty = .number ∧ PathStep.isListOrTuple v.ty = true) ∨
+        (k.ty = .string ∧ PathStep.isMap v.ty = true) := by
+      have h' := h
+      simp only [PathStep.apply] at h'
+      split at h'
+      · cases h'
+      · obtain ⟨kt, kp⟩ := k
+        cases kt with
+        | number =>
+          by_cases hl : PathStep.isListOrTuple v.ty = true
+          · exact Or.inl ⟨rfl, hl⟩
+          · simp [hl] at h'
+        | string =>
+          by_cases hl : PathStep.isMap v.ty = true
+          · exact Or.inr ⟨rfl, hl⟩
+          · simp [hl] at h'
+        | _ => simp at h'
     simp only [PathStep.apply] at h
     split at h
     · cases h
-    · have hkm : k.isMarked = false := by
-        simp only [plainKey, Bool.and_eq_true, Bool.not_eq_true'] at hk
-        exact hk.1
-      obtain ⟨t, p⟩ := v
-      cases hkt : k.ty <;> simp only [hkt] at h <;> try (cases h; done)
-      · -- number key
-        obtain ⟨x, rfl⟩ := plainKey_num hk hkt
-        cases t <;> simp only [PathStep.isListOrTuple, if_true, Bool.false_eq_true, if_false] at h <;>
-          try (cases h; done)
-        · rename_i e _
-          refine index_tail_shaped _ _ v' hs hkm ?_ ?_ h
-          · intro e' he
-            simp only [PathStep.elementType, Res.ok.injEq] at he
-            subst he
-            simpa [Ty.wf] using hw
-          · intro r hr
-            rw [hp.2.2] at hr
-            exact indexU_list_shaped e _ x r hp.1 hp.2.1 (by simpa [Ty.wf] using hw) hr
-        · rename_i ts _
-          refine index_tail_shaped _ _ v' hs hkm ?_ ?_ h
-          · intro e' he
-            simp [PathStep.elementType] at he
-          · intro r hr
-            rw [hp.2.2] at hr
-            exact indexU_tuple_shaped ts _ x r hp.1 hp.2.1 (by simpa [Ty.wf] using hw) hr
-      · -- string key
-        obtain ⟨x, rfl⟩ := plainKey_str hk hkt
-        cases t <;> simp only [PathStep.isMap, if_true, Bool.false_eq_true, if_false] at h <;>
-          try (cases h; done)
-        rename_i e _
-        refine index_tail_shaped _ _ v' hs hkm ?_ ?_ h
-        · intro e' he
-          simp only [PathStep.elementType, Res.ok.injEq] at he
-          subst he
-          simpa [Ty.wf] using hw
-        · intro r hr
-          rw [hp.2.2] at hr
-          exact indexU_map_shaped e _ x r hp.1 hp.2.1 (by simpa [Ty.wf] using hw) hr
+    · rename_i hvn
+      have hfit2 := hfit
+      rcases hfit with ⟨h1, h2⟩ | ⟨h1, h2⟩ <;> simp only [h1, h2, if_true] at h <;>
+      (split at h
+       · cases h
+       · rename_i hkn
+         have hkn' : k.isNull = false := by simpa using hkn
+         cases hh : v.hasIndex k with
+         | ok has =>
+           simp only [hh] at h
+           split at h
+           · split at h
+             · simp only [Res.ok.injEq] at h
+               subst h
+               exact ⟨rfl, rfl⟩
+             · cases he : PathStep.elementType v.ty with
+               | ok e =>
+                 simp only [he, Res.map, Res.ok.injEq] at h
+                 subst h
+                 refine ⟨unknown_shaped e, ?_⟩
+                 obtain ⟨t, p⟩ := v
+                 cases t <;> simp [PathStep.elementType] at he <;> subst he <;>
+                   simpa [Ty.wf, Value.unknown] using hw
+               | err c => simp [he, Res.map] at h
+               | panic w => simp [he, Res.map] at h
+               | unmodelled => simp [he, Res.map] at h
+           · split at h
+             · cases h
+             · obtain ⟨r, hr, hrel⟩ := binMarks_result indexU v k v' h
+               have hkn0 : (⟨k.ty, k.v.unmark1⟩ : Value).isNull = false := by
+                 have := isNull_unmark hk
+                 simp only [Value.unmark] at this
+                 rw [this]; exact hkn'
+               have := indexU_key_shaped v k.ty k.v.unmark1 r hs hw (shaped_unmark1 hk)
+                 (shaped_unmark1_notMarked hk) hkn0 hfit2 hr
+               exact remarked_shaped hrel this.1 this.2
+         | err c => simp [hh] at h
+         | panic w => simp [hh] at h
+         | unmodelled => simp [hh] at h)
 
 /-! ### whole paths -/
 
@@ -378,20 +383,20 @@ def stepsExist : Path → Value → Bool
        | .ok v' => stepsExist p v'
        | _ => false)
 
-theorem plainKeys_cons (s : PathStep) (p : Path) : plainKeys (s :: p) = true →
-    (match s with | .index k => plainKey k | .getAttr _ => true) = true ∧ plainKeys p = true := by
+theorem keysShaped_cons (s : PathStep) (p : Path) : keysShaped (s :: p) = true →
+    (match s with | .index k => shapedV k | .getAttr _ => true) = true ∧ keysShaped p = true := by
   cases s with
-  | getAttr n => intro h; exact ⟨rfl, by simpa [plainKeys] using h⟩
-  | index k => intro h; simp only [plainKeys, Bool.and_eq_true] at h; exact ⟨h.1, h.2⟩
+  | getAttr n => intro h; exact ⟨rfl, by simpa [keysShaped] using h⟩
+  | index k => intro h; simp only [keysShaped, Bool.and_eq_true] at h; exact ⟨h.1, h.2⟩
 
 /-- **`Path.Apply` succeeds exactly when every step names an existing member, and
-never panics** (plain keys, shaped value of a well-formed type) -/
+never panics** (any shaped keys, shaped value of a well-formed type) -/
 theorem apply_ok_iff : ∀ (p : Path) (v : Value), shapedV v = true → Ty.wf v.ty = true →
-    plainKeys p = true →
+    keysShaped p = true →
     (Path.apply p v).isOk = stepsExist p v ∧ (Path.apply p v).isPanic = false
   | [], _, _, _, _ => ⟨rfl, rfl⟩
   | s :: p, v, hs, hw, hk => by
-    obtain ⟨hk1, hk2⟩ := plainKeys_cons s p hk
+    obtain ⟨hk1, hk2⟩ := keysShaped_cons s p hk
     have h1 := step_ok_iff s v hs hw hk1
     simp only [Path.apply, stepsExist]
     cases hr : s.apply v with
